@@ -11,4 +11,7 @@ func init() {
 		addStages(p, "exploration", simAssume, sim(p))
 	}
 	addStages("C01", "exploration", simAssume, sim("C01"))
+	// C04 at simulator level: every vote request, vote grant, replication acknowledgement and
+	// heartbeat response is checked against the durable store of its sender when it leaves
+	addStages("C04", "fault_enumeration", simAssume, sim("C04"))
 }
